@@ -231,6 +231,12 @@ func c20Place(n c20Nil, pos string) ap.Item {
 	switch pos {
 	case "list":
 		return ap.ItemCollection{ap.IRI("https://example.com/first"), n.it, c20Real()}
+	case "list1":
+		return ap.ItemCollection{n.it}
+	case "prop-list1":
+		// a one-member list as the value of item-typed and list-typed properties (one-member lists are written compacted)
+		return &ap.Activity{ID: "https://example.com/act", Type: ap.CreateType, Object: ap.ItemCollection{n.it}, AttributedTo: ap.ItemCollection{n.it}, Audience: ap.ItemCollection{n.it},
+			Replies: ap.ItemCollection{n.it}, To: ap.ItemCollection{n.it}}
 	case "prop":
 		var it ap.Item = n.it
 		return &ap.Activity{ID: "https://example.com/act", Type: ap.CreateType, Actor: ap.IRI("https://example.com/actor"), Object: it, Target: it,
@@ -250,8 +256,17 @@ func (c c20Cell) String() string { return fmt.Sprintf("%s %s %s", c.h.name, c.n.
 func c20Cells() []c20Cell {
 	var out []c20Cell
 	for _, h := range c20Helpers {
+		positions := append([]string{}, h.positions...)
+		for _, p := range h.positions {
+			if p == "list" {
+				positions = append(positions, "list1")
+			}
+			if p == "prop" {
+				positions = append(positions, "prop-list1")
+			}
+		}
 		for _, n := range c20Nils {
-			for _, pos := range h.positions {
+			for _, pos := range positions {
 				out = append(out, c20Cell{h, n, pos})
 			}
 		}
@@ -284,8 +299,8 @@ func TestC20(t *testing.T) {
 	r := ev.Open(t, "C20")
 	defer r.Close(t)
 	r.Rule("exhaustive: {untyped nil, nil pointer to each of the 14 struct types} x every exported helper taking an Item (IsNil, NotEmpty, ItemsEqual, 20 On*, 16 To*, the flatten family, CleanRecipients/Clean/Recipients, " +
-		"DerefItem, ItemOrderTimestamp, collection Contains/Append/Remove, IRIs.Contains/Append, MarshalJSON, GobEncode, CollectionPath.IRI/Of/AddTo, fmt) x position {top level, member of an otherwise valid list, " +
-		"property of an otherwise valid activity}; each cell runs in a child process so that a fatal nil dereference is attributed to it. Oracle: IsNil true, NotEmpty false, equal to nil and unequal to a real " +
+		"DerefItem, ItemOrderTimestamp, collection Contains/Append/Remove, IRIs.Contains/Append, MarshalJSON, GobEncode, CollectionPath.IRI/Of/AddTo, fmt) x position {top level, member of an otherwise valid list, sole member of a list, " +
+		"property of an otherwise valid activity, sole member of a list held by a property}; each cell runs in a child process so that a fatal nil dereference is attributed to it. Oracle: IsNil true, NotEmpty false, equal to nil and unequal to a real " +
 		"object, no panic, returns within 10 s, a callback - if invoked - receives a nil pointer. non-trivial = cell with a typed nil; distinct by cell")
 	r.Note("only_enumerated_layers", true)
 
